@@ -145,14 +145,16 @@ PROPS['C12'] = {
 PROPS['C18'] = {
     'module': 'Yabgp.Props.C18All',
     'theorems': ['Yabgp.C18_received_counted_once', 'Yabgp.C18_received_cumulative', 'Yabgp.C18_sent_counted_once',
-                 'Yabgp.C18_increments_are_single', 'Yabgp.C18_sent_step', 'Yabgp.C18_sent_cumulative'],
+                 'Yabgp.C18_increments_are_single', 'Yabgp.C18_sent_step', 'Yabgp.C18_sent_cumulative',
+                 'Yabgp.C18_sent_cumulative_rest', 'Yabgp.bal_handle', 'Yabgp.core_handle', 'Yabgp.C16_routes_agree'],
     'genagree': SESSION_GEN,
-    'suites': ['session', 'framing'],
+    'suites': ['session', 'framing', 'rest'],
     'cannot': SESSION_CANNOT + '; received side: cumulative over any byte stream (C18_received_cumulative: the counters move by exactly the '
               'increments owed for the frames dispatched, in order); sent side: C18_sent_cumulative - after any history of enabled events '
-              'from the agent\'s start the sent counter of every connection and type equals the number of such messages written to it '
-              '(invariant over all runs, using the reachable-state invariants of C02/C12 at every send site); UPDATE / ROUTE-REFRESH '
-              'sends through the REST API are outside the session model (C16 covers what they write), their counters are compared by the oracle',
+              'from the agent\'s start the sent counter of every connection and kind equals the number of such messages written to it '
+              '(invariant over all runs, using the reachable-state invariants of C02/C12 at every send site), and '
+              'C18_sent_cumulative_rest - the same for histories that also contain REST requests against the route table regenerated '
+              'from /repo (all five counters; octets posted to send/bin_update are assumed to be one UPDATE message: BinIsUpdate)',
 }
 
 PROPS['C09'] = {
